@@ -220,6 +220,29 @@ class Check:
         cmd.append(".")
         rc, log = sh(cmd, cwd=HARNESS, env=GOENV, timeout=1800)
         if rc != 0:
+            # an accessor file that names a declaration the tree no longer has: swap in its `.fallback` sibling (reduced
+            # observation) so that the search for a failing run can still go on; the lost accessor is itself reported as a
+            # broken correspondence.
+            swapped = []
+            for dst, srcf in list(overlay.items()):
+                fb = srcf + ".fallback"
+                if os.path.exists(fb) and os.path.basename(srcf) + ":" in log:
+                    tmpf = os.path.join(self.tmp, "fb_" + os.path.basename(srcf))
+                    shutil.copy(fb, tmpf)
+                    overlay[dst] = tmpf
+                    swapped.append(os.path.relpath(srcf, VERIF))
+            if swapped:
+                json.dump({"Replace": overlay}, open(ov, "w"))
+                rc2, log2 = sh(cmd, cwd=HARNESS, env=GOENV, timeout=1800)
+                if rc2 == 0:
+                    self.cov.setdefault("hook_fallbacks", []).extend(x for x in swapped if x not in self.cov.get("hook_fallbacks", []))
+                    sig = "%s:hooks:%s" % (self.pid, ",".join(os.path.basename(x) for x in swapped))
+                    if sig not in getattr(self, "_fb_reported", set()):
+                        self._fb_reported = getattr(self, "_fb_reported", set()) | {sig}
+                        self.report(sig, "white-box accessor %s no longer compiles against /repo (a declaration it reads was removed or renamed); "
+                                    "the reduced fallback accessor is used for the search" % ", ".join(swapped),
+                                    {"kind": "build", "accessors": swapped, "log": log[-2000:]}, found_input=False)
+                    return out, log2
             return None, log
         return out, log
 
